@@ -346,6 +346,30 @@ def judgeSeq (line : String) : String :=
           | w :: _, _ => s!"SPEC dbatch {w}"
           | [], w :: _ => s!"DIFF dbatch {w}"
           | [], [] => s!"OK dbatch"
+  | "emsg" :: gt =>
+    match Proto.pGeom 64 gt with
+    | none => "BAD parse"
+    | some (g, _) =>
+      let cls := "emsg-" ++ tagOf g
+      if Rfc.isNil g then (if rhs.head? == some "panic" then s!"OK {cls}" else s!"DIFF {cls} model=panic impl={rhsS}") else
+      let want := match encodeErrorText g with
+        | some m => "geojson " ++ hexStr m
+        | none => (match toTree fin g with | .ok _ => "noerr" | .error e => "other " ++ errName e)
+      if rhsS == want then s!"OK {cls}"
+      else if rhs == ["noerr"] && !(Rfc.supported g && Rfc.allFinite fin g) then s!"SPEC {cls} encoder-reports-no-error"
+      else if rhs.head? == some "panic" then s!"SPEC {cls} Encode-{rhsS}"
+      else s!"DIFF {cls} error-text model={want} impl={rhsS}"
+  | "dmsg" :: th :: tt =>
+    match unhexStr th, pTree tt with
+    | some ty, some (t, _) =>
+      let want := match decodeErrorText ty t with
+        | some m => "geojson " ++ hexStr m
+        | none => (match fromGeoJSON ty t with | .ok _ => "noerr" | .error e => "other " ++ errName e)
+      let cls := "dmsg-" ++ (match fromGeoJSON ty t with | .ok g => geomClass g | .error e => "err-" ++ errName e)
+      if rhs.head? == some "panic" then s!"SPEC {cls} FromGeoJSON-{rhsS}"
+      else if rhsS == want then s!"OK {cls}"
+      else s!"DIFF {cls} error-text model={want} impl={rhsS}"
+    | _, _ => "BAD parse"
   | "fromt" :: th :: tt =>
     match unhexStr th, pTree tt with
     | some ty, some (t, _) =>
